@@ -266,6 +266,14 @@ def reorderGlyphs(font: ttLib.TTFont, new_glyph_order: List[str]):
     if not_loaded:
         raise ValueError(f"Everything should be loaded, following aren't: {not_loaded}")
 
+    # The CFF2 top dict (with its glyph name -> charstring mapping) is built
+    # lazily from the font's glyph order: read it while that is still the old one.
+    cff_charstrings = {
+        tag: font[tag].cff.topDictIndex[0].CharStrings.charStrings
+        for tag in ("CFF ", "CFF2")
+        if tag in font
+    }
+
     font.setGlyphOrder(new_glyph_order)
 
     coverage_containers = {"GDEF", "GPOS", "GSUB", "MATH"}
@@ -280,7 +288,7 @@ def reorderGlyphs(font: ttLib.TTFont, new_glyph_order: List[str]):
     for tag in ["CFF ", "CFF2"]:
         if tag in font:
             cff_table = font[tag]
-            charstrings = cff_table.cff.topDictIndex[0].CharStrings.charStrings
+            charstrings = cff_charstrings[tag]
             cff_table.cff.topDictIndex[0].charset = new_glyph_order
             cff_table.cff.topDictIndex[0].CharStrings.charStrings = {
                 k: charstrings.get(k) for k in new_glyph_order
